@@ -387,6 +387,82 @@ def explore (P : Protocol) (maxFire : Nat) (fuel : Nat) (s : State) (pre : List 
     (cap : Nat) (acc : List (List Action × State)) : List (List Action × State) :=
   (exploreAux P maxFire cap fuel s pre (acc.length, acc)).2
 
+/-! ### Other threads / processes the library starts: executor pools -/
+
+inductive SpawnKind
+  | threadPool     -- concurrent.futures.ThreadPoolExecutor(...)
+  | processPool    -- concurrent.futures.ProcessPoolExecutor(...), multiprocessing.Pool(...)
+  | thread         -- threading.Thread(...)
+  | timer          -- threading.Timer(...)
+  | process        -- multiprocessing.Process(...)
+  | other          -- Popen / fork / start_new_thread
+  deriving DecidableEq, Repr, Inhabited
+
+/-- how the created object is held -/
+inductive SpawnScope
+  | withStmt          -- with Executor(...) as e: ...     (__exit__ on every path)
+  | progressProtocol  -- self._timer = Timer(...) in a class of PROGRESS_DICT (micro-op lists)
+  | stored            -- kept on an object (self.x = ...) or at module level
+  | localVar          -- bound to a local name, no `with`
+  | other
+  deriving DecidableEq, Repr, Inhabited
+
+/-- the shapes for which a theorem shows that nothing stays alive -/
+def SpawnScope.scoped : SpawnScope → Bool
+  | .withStmt => true
+  | .progressProtocol => true
+  | _ => false
+
+structure SpawnSite where
+  file : String
+  func : String
+  line : Nat
+  kind : SpawnKind
+  scope : SpawnScope
+  deriving DecidableEq, Repr
+
+/-- a site is covered by a theorem: executor pools must be `with`-scoped, timers must be the
+    ProgressBar timers of the micro-op protocol; bare threads / processes are not covered -/
+def SpawnSite.covered (s : SpawnSite) : Bool :=
+  match s.kind with
+  | .threadPool => s.scope == .withStmt
+  | .processPool => s.scope == .withStmt
+  | .timer => s.scope == .progressProtocol
+  | _ => false
+
+/-- an executor: workers are started on submission, at most `maxWorkers` of them
+    (CPython starts no more than one per submission; it may reuse an idle one, so
+    `workers` is an upper bound that is > 0 as soon as one task was submitted) -/
+structure Pool where
+  maxWorkers : Nat
+  submitted : Nat
+  workers : Nat
+  shut : Bool
+  deriving DecidableEq, Repr
+
+def Pool.fresh (maxWorkers : Nat) : Pool :=
+  { maxWorkers := maxWorkers, submitted := 0, workers := 0, shut := false }
+
+def Pool.submit (p : Pool) : Pool :=
+  { p with submitted := p.submitted + 1, workers := min (p.workers + 1) p.maxWorkers }
+
+/-- ASSUMPTION on CPython: `Executor.__exit__` is `shutdown(wait=True)`, which returns only
+    when every worker thread / process has been joined. -/
+def Pool.shutdown (p : Pool) : Pool := { p with workers := 0, shut := true }
+
+/-- the body of the block submits tasks `i, i+1, ...` (`n` of them); submission number
+    `fail` raises.  Returns the pool and whether the body raised. -/
+def poolBody (fail : Option Nat) : Nat → Nat → Pool → Pool × Bool
+  | _, 0, p => (p, false)
+  | i, n + 1, p => if fail = some i then (p, true) else poolBody fail (i + 1) n p.submit
+
+/-- the pool after the block was left (normally or by the exception) -/
+def runPool (scope : SpawnScope) (maxWorkers n : Nat) (fail : Option Nat) : Pool :=
+  let r := poolBody fail 0 n (Pool.fresh maxWorkers)
+  match scope with
+  | .withStmt => r.1.shutdown
+  | _ => r.1
+
 /-! ### The race of the legacy protocol, as a schedule -/
 
 /-- enter; update; then timer 1 (armed by update) fires, main runs all of `exit` (its
